@@ -4,6 +4,8 @@ The byte and value probes look at one freshly unpacked object at a time.  Here e
 two rounds with different values at every leaf), ALL unpacked objects are kept, and at the end
   * every kept object is re-read and re-packed: its attributes and its pack() output must be what they were right after
     its own unpack (another message being decoded must not change it), and
+  * the caller's buffer (a bytearray in round 1, a memoryview of one in round 2, where the library accepts it) is overwritten
+    with 0xFF right after unpack: an unpacked object must not keep a view into the buffer it was read from, and
   * no two kept objects may share a mutable sub-object (an instance with attributes, a list, dict, set, bytearray or
     numpy array reachable from both).
 One row per kept object: raw = its pack() bytes (as one number) right after unpack, obs = its pack() bytes at the end;
@@ -74,12 +76,21 @@ def main():
                 try:
                     ad = P.Adapter(spec, path)
                     rec['ad'] = ad
-                    rec['obj'], _ = ad.unpack(buf)
+                    own = bytearray(buf)
+                    try:
+                        rec['obj'], _ = ad.unpack_raw(own if rnd == 0 else memoryview(own))
+                        rec['buffer_form'] = 'bytearray' if rnd == 0 else 'memoryview'
+                    except Exception:
+                        rec['obj'], _ = ad.unpack(buf)
+                        rec['buffer_form'] = 'bytes'
                     rec['attrs'] = {a: P.canon(v) for a, v in ad.attrs(rec['obj']).items() if a != '_io'}
                     try:
                         rec['packed'] = ad.pack(rec['obj'])
                     except Exception:
                         rec['packed'] = None
+                    if own != bytearray(buf):
+                        rec['error_after'] = 'unpack() changed the caller\'s buffer'
+                    own[:] = b'\xff' * len(own)          # the caller reuses its buffer
                 except Exception as e:
                     rec['error'] = repr(e)[:160]
                 kept.append(rec)
@@ -108,8 +119,10 @@ def main():
         changed = sorted(a for a in set(now) | set(rec['attrs']) if now.get(a) != rec['attrs'].get(a))
         shared = [(pth, kept[j]['struct'], kept[j]['path'], kept[j]['round'] + 1) for k, (o, pth) in rec['parts'].items()
                   for j, _ in owners[k] if j != i]
-        if changed:
-            row['note'] = 'attributes %r changed although this object was not touched' % changed
+        if rec.get('error_after'):
+            row['note'] = rec['error_after']
+        elif changed:
+            row['note'] = 'attributes %r changed although this object was not touched (its input buffer, a %s, was overwritten after unpack; other messages were unpacked)' % (changed, rec.get('buffer_form'))
         elif shared:
             row['note'] = 'shares the mutable object at %s with the %s unpacked on path %s in round %d' % shared[0]
         else:
